@@ -402,6 +402,7 @@ def rule_index_seeding(ctx, rep, rid):
                    'current_index := the index just written' if okv else 'current_index is advanced to `%s`, which is not the index that was written (`%s`)' % (v, f))
     if not a_off or b_off is None:
         rep.anchor_lost(rid, 'index seeding in init / allocation in apply')
+        return
     for off, c in a_off:
         ok = off + b_off == 1
         rep.ob(rid, FILESTATE_INIT, 'seed-pairs-with-alloc', ok, c.where(),
